@@ -61,6 +61,9 @@ def generate(rng, tier, idx):
         n = rng.choice([1, 2, 10, 50, 500]) if r < 0.8 else big
         if fam != 'Clayton' and n == big and tier != 'thorough' and rng.random() < 0.5:
             n = 2000
+        if n >= 2000:
+            # not only round sizes: a batch that is cut into blocks has a last, partial block
+            n += [0, -1, 1, 337, -500, 512][(idx * 7 + len(ops)) % 6]
         ops.append({'op': 'sample', 'n': n})
     if rng.random() < 0.2:
         # many tiny calls: whole-batch shortcuts in the inverse (all rows degenerate, ...) only
@@ -121,9 +124,10 @@ def fixed_runs(tier):
         if fam == 'Gumbel':
             taus = [0.0] + taus
         for t in taus:
+            n_t = n + [0, -1, 337, 1, 512][len(runs) % 5]
             runs.append({'family': fam, 'tau': t, 'how': 'param',
                          'seed': {'kind': 'int', 'v': 5}, 'g0': 1,
-                         'ops': [{'op': 'sample', 'n': 3}, {'op': 'sample', 'n': n}]})
+                         'ops': [{'op': 'sample', 'n': 3}, {'op': 'sample', 'n': n_t}]})
     return runs
 
 
